@@ -124,6 +124,14 @@ func editKind(name string) string {
 	return string(out)
 }
 
+// sigKind: the edit part of a violation signature.
+func sigKind(c *tcase) string {
+	if c.class == "torsion-shift" && (strings.HasPrefix(c.name, "BatchedProof.H") || strings.HasPrefix(c.name, "ZShiftedOpening.H")) {
+		return "kzg-opening-quotient"
+	}
+	return editKind(c.name)
+}
+
 // run evaluates the case in both verifiers and records the verdict.
 func (c *tcase) run(r *vcore.Run) {
 	nerr, npan := c.native()
@@ -197,7 +205,7 @@ func (c *tcase) run(r *vcore.Run) {
 		r.Count(pre+"DISAGREE.incircuit-accepts-native-rejects", 1)
 		rep := c.replay()
 		rep["native_error"] = nerr.Error()
-		r.Violation("incircuit-accepts-native-rejects/"+c.scheme+"/"+c.rn.Name()+"/"+c.class+"/"+editKind(c.name),
+		r.Violation("incircuit-accepts-native-rejects/"+c.scheme+"/"+c.rn.Name()+"/"+c.class+"/"+sigKind(c),
 			fmt.Sprintf("outer circuit satisfied (%s) on a triple the native verifier rejects (%v): %s %s", c.cfg(), nerr, c.class, c.name), rep)
 	default: // native accepts, in-circuit unsatisfied
 		if c.exemptRejectOnly != "" {
@@ -375,7 +383,11 @@ func (pl *planner) planG16(rn runner, commit string, widx int) {
 		}
 	}
 	// genuine with a zero public input: outside the documented domain of the incomplete formulas
-	for _, cfg := range []g16cfg{{"witness", true, false}, {"fixed", false, false}} {
+	zcfgs := []g16cfg{{"witness", true, false}, {"fixed", false, false}}
+	if emu && r.Quick() {
+		zcfgs = zcfgs[:1]
+	}
+	for _, cfg := range zcfgs {
 		c := mk("genuine-zero-public-input", "pub[1]=0", cfg, pZ, A, xZ)
 		if !cfg.complete {
 			c.exemptRejectOnly = "zero scalar without WithCompleteArithmetic"
@@ -406,7 +418,7 @@ func (pl *planner) planG16(rn runner, commit string, widx int) {
 		}
 	}
 	replays = append(replays, mk("replay", "other-witness-proof", nextCfg(), pA1, A, x0))
-	for _, i := range sample(rng, len(replays), pick(r, emu, 3, 5, 6, len(replays))) {
+	for _, i := range sample(rng, len(replays), pick(r, emu, 2, 5, 6, len(replays))) {
 		pl.add(replays[i])
 	}
 
@@ -417,7 +429,7 @@ func (pl *planner) planG16(rn runner, commit string, widx int) {
 		mk("other-key", "sibling-proof-under-this-key", nextCfg(), pB, A, xB),
 		mk("other-key", "proof-from-second-setup", nextCfg(), pA2, A, x0),
 	}
-	for _, i := range sample(rng, len(oth), pick(r, emu, 2, 4, 4, 4)) {
+	for _, i := range sample(rng, len(oth), pick(r, emu, 1, 4, 4, 4)) {
 		pl.add(oth[i])
 	}
 
@@ -434,7 +446,7 @@ func (pl *planner) planG16(rn runner, commit string, widx int) {
 		cand = append(cand, e)
 	}
 	r.Count(rn.Name()+".groth16.single-edit.enumerated", len(cand))
-	for _, i := range sample(rng, len(cand), pick(r, emu, 5, 18, 30, len(cand))) {
+	for _, i := range sample(rng, len(cand), pick(r, emu, 3, 18, 30, len(cand))) {
 		e := cand[i]
 		c := mk("single-edit", e.Name, nextCfg(), e.Obj.(groth16.Proof), A, x0)
 		if nbCommit == 0 && strings.HasPrefix(e.Name, "CommitmentPok") {
@@ -461,7 +473,7 @@ func (pl *planner) planG16(rn runner, commit string, widx int) {
 	// wrong number of public inputs
 	lst = append(lst, mk("witness-length", "append-element", nextCfg(), pA0, A, append(clonev(x0), big.NewInt(5))))
 	lst = append(lst, mk("witness-length", "drop-element", nextCfg(), pA0, A, clonev(x0)[:len(x0)-1]))
-	for _, i := range sample(rng, len(lst), pick(r, emu, 4, len(lst), len(lst), len(lst))) {
+	for _, i := range sample(rng, len(lst), pick(r, emu, 3, len(lst), len(lst), len(lst))) {
 		pl.add(lst[i])
 	}
 
@@ -478,6 +490,14 @@ func (pl *planner) planG16(rn runner, commit string, widx int) {
 				}
 				pl.add(c)
 			}
+		}
+	}
+
+	// 6b. off-curve points
+	offs := g16OffCurveEdits(pA0)
+	for _, i := range sample(rng, len(offs), pick(r, emu, 1, 3, 3, 3)) {
+		if offs[i].Changed {
+			pl.add(mk("off-curve-point", offs[i].Name, nextCfg(), offs[i].Obj.(groth16.Proof), A, x0))
 		}
 	}
 
@@ -507,7 +527,7 @@ func (pl *planner) planG16(rn runner, commit string, widx int) {
 		sw("single-key,selector=0(genuine)", nextCfg(), pA0, x0, 0, A),
 		sw("single-key,selector=1", nextCfg(), pA0, x0, 1, A),
 	}
-	for _, i := range sample(rng, len(sws), pick(r, emu, 3, len(sws), len(sws), len(sws))) {
+	for _, i := range sample(rng, len(sws), pick(r, emu, 2, len(sws), len(sws), len(sws))) {
 		pl.add(sws[i])
 	}
 
@@ -686,7 +706,7 @@ func (pl *planner) planPlonk(rn runner, commit string, widx int) {
 	gcfgs := cfgs
 	if emu && r.Quick() {
 		gcfgs = nil
-		for _, i := range sample(rng, len(cfgs), 3) {
+		for _, i := range sample(rng, len(cfgs), 2) {
 			gcfgs = append(gcfgs, cfgs[i])
 		}
 	}
@@ -710,7 +730,7 @@ func (pl *planner) planPlonk(rn runner, commit string, widx int) {
 		mkN("multi-one-bad", "switch:proof0@key1,sibling@key1", plkcfg{"switch", false}, []item{{pA0, A, x0}, {pB, B, xB}}, []*plkInner{A, B}, []int{1, 1}),
 		mkN("multi-one-bad", "switch:swapped-selectors", plkcfg{"switch", true}, []item{{pA0, A, x0}, {pB, B, xB}}, []*plkInner{A, B}, []int{1, 0}),
 	}
-	for _, i := range sample(rng, len(multi), pick(r, emu, 2, len(multi), len(multi), len(multi))) {
+	for _, i := range sample(rng, len(multi), pick(r, emu, 1, len(multi), len(multi), len(multi))) {
 		pl.add(multi[i])
 	}
 
@@ -736,7 +756,7 @@ func (pl *planner) planPlonk(rn runner, commit string, widx int) {
 		}
 	}
 	replays = append(replays, mk("replay", "other-witness-proof", nextCfg(), pA1, A, x0))
-	for _, i := range sample(rng, len(replays), pick(r, emu, 3, 5, 6, len(replays))) {
+	for _, i := range sample(rng, len(replays), pick(r, emu, 2, 5, 6, len(replays))) {
 		pl.add(replays[i])
 	}
 
@@ -747,7 +767,7 @@ func (pl *planner) planPlonk(rn runner, commit string, widx int) {
 		mk("other-key", "sibling-proof-under-this-key", nextCfg(), pB, A, xB),
 		mk("other-key", "proof-from-other-srs", nextCfg(), pA2, A, x0),
 	}
-	for _, i := range sample(rng, len(oth), pick(r, emu, 2, 4, 4, 4)) {
+	for _, i := range sample(rng, len(oth), pick(r, emu, 1, 4, 4, 4)) {
 		pl.add(oth[i])
 	}
 
@@ -762,7 +782,7 @@ func (pl *planner) planPlonk(rn runner, commit string, widx int) {
 		cand = append(cand, e)
 	}
 	r.Count(rn.Name()+".plonk.single-edit.enumerated", len(cand))
-	for _, i := range sample(rng, len(cand), pick(r, emu, 5, 18, 36, len(cand))) {
+	for _, i := range sample(rng, len(cand), pick(r, emu, 3, 18, 36, len(cand))) {
 		pl.add(mk("single-edit", cand[i].Name, nextCfg(), cand[i].Obj.(plonk.Proof), A, x0))
 	}
 
@@ -776,7 +796,7 @@ func (pl *planner) planPlonk(rn runner, commit string, widx int) {
 	}
 	lst = append(lst, mk("witness-length", "append-element", nextCfg(), pA0, A, append(clonev(x0), big.NewInt(5))))
 	lst = append(lst, mk("witness-length", "drop-element", nextCfg(), pA0, A, clonev(x0)[:len(x0)-1]))
-	for _, i := range sample(rng, len(lst), pick(r, emu, 4, 10, 12, len(lst))) {
+	for _, i := range sample(rng, len(lst), pick(r, emu, 3, 10, 12, len(lst))) {
 		pl.add(lst[i])
 	}
 
@@ -785,6 +805,13 @@ func (pl *planner) planPlonk(rn runner, commit string, widx int) {
 		pl.add(mk("torsion-shift", e.Name, plkcfg{"fixed", true}, e.Obj.(plonk.Proof), A, x0))
 		if r.Thorough() {
 			pl.add(mk("torsion-shift", e.Name, plkcfg{"witness", false}, e.Obj.(plonk.Proof), A, x0))
+		}
+	}
+
+	offs := plkOffCurveEdits(pA0)
+	for _, i := range sample(rng, len(offs), pick(r, emu, 1, 3, 3, 3)) {
+		if offs[i].Changed {
+			pl.add(mk("off-curve-point", offs[i].Name, nextCfg(), offs[i].Obj.(plonk.Proof), A, x0))
 		}
 	}
 
@@ -797,7 +824,7 @@ func (pl *planner) planPlonk(rn runner, commit string, widx int) {
 		mkN("selector", "single-key,selector=0(genuine)", nextSwitch(nextCfg()), []item{{pA0, A, x0}}, []*plkInner{A}, []int{0}),
 		mkN("selector", "single-key,selector=1", nextSwitch(nextCfg()), []item{{pA0, A, x0}}, []*plkInner{A}, []int{1}),
 	}
-	for _, i := range sample(rng, len(sws), pick(r, emu, 3, len(sws), len(sws), len(sws))) {
+	for _, i := range sample(rng, len(sws), pick(r, emu, 2, len(sws), len(sws), len(sws))) {
 		pl.add(sws[i])
 	}
 
@@ -853,6 +880,9 @@ func TestC17(t *testing.T) {
 		g16commits := []string{commitNone, commitMixed}
 		plkCommits := []string{commitNone, commitMixed, commitTwo}
 		nW := 1
+		if emu {
+			plkCommits = []string{commitNone, commitTwo}
+		}
 		if r.Thorough() {
 			g16commits = []string{commitNone, commitMixed, commitSecret, commitPublic}
 			plkCommits = []string{commitNone, commitMixed, commitTwo, commitSecret}
@@ -1013,14 +1043,16 @@ func excerpt(s, needle string) string {
 // special the second public input is p-1.
 func hangCase(rn runner, special bool) (bool, string) {
 	field := rn.Inner().ScalarField()
-	spec := &circuits.Spec{NPub: 2, NSec: 1, Muls: 1}
+	// three public inputs: the multi scalar multiplication pairs the first two and
+	// sends the last one through the single scalar multiplication
+	spec := &circuits.Spec{NPub: 3, NSec: 1, Muls: 1}
 	in, err := newG16Inner(rn, spec)
 	if err != nil {
 		return false, err.Error()
 	}
-	pub := []*big.Int{new(big.Int), big.NewInt(12345)}
+	pub := []*big.Int{new(big.Int), big.NewInt(12345), big.NewInt(6789)}
 	if special {
-		pub[1] = new(big.Int).Sub(field, big.NewInt(1))
+		pub[2] = new(big.Int).Sub(field, big.NewInt(1))
 	}
 	sec := []*big.Int{big.NewInt(77)}
 	pub[0] = spec.Eval(pub, sec, field)
